@@ -8,17 +8,17 @@ VERIF = os.path.dirname(os.path.dirname(os.path.abspath(__file__)))
 CHECKS = {
     "C09": dict(
         category="fault_enumeration",
-        technique="TLA+ spec Resources (ownership ledger of one pipeline run: redirect handles, pipe ends, capture pipes, helper threads, children, swapped handlers; build / wire / start / drain / close with a fault choice at every step) checked by TLC for LeavesNothing on every path; every pipeline shape x injected fault executed repeatedly in a real session between two snapshots of the process state; outcomes validated against ResourcesTrace by TLC",
+        technique="TLA+ spec Resources (ownership ledger of one pipeline run: redirect handles, pipe ends, capture pipes, helper threads, children, swapped handlers; build / wire / start / drain stage by stage with the write end behind each finished producer released / close, and for a background pipeline release-at-start / wait; a fault choice at every step) checked by TLC for LeavesNothing on every path; every pipeline shape x injected fault executed repeatedly in a real session between two snapshots of the process state; outcomes validated against ResourcesTrace by TLC",
         text="TLC enumerates every path out of a pipeline run of up to three stages - normal end, redirect target unopenable, input missing, command not found at stage i after earlier stages were started, alias raising at stage i, consumer leaving early - and checks that nothing stays owned and the handlers are the original ones at quiescence (and refutes it with the listed deviations enabled). Each shape (process / callable-alias stages, six capture forms, output redirects) is then run for real 3 (thorough: also 12) times after a warm-up with the fault injected by construction of the command, and /proc/self/fd (with link targets), running children, cwd, os.environ, the session environment and the effect of a self-sent SIGINT are compared before and after, after garbage collection and up to 3 s of settling; only growth counts. Fault enumeration is the right level: the failure modes of each stage are finite and enumerated; what the real system calls do is observed, not modelled.",
         design_ref="3/C09, A.5",
-        note="Faults by construction of the command, not by failing system calls; non-interactive session (terminal ownership not observable). Helper threads still alive, sys.std* identity, runs exceeding the time limit, stale handlers and zombies depend on thread timing the harness does not control and are reported as ADVISORY only. One descriptor leak is a known finding.",
+        note="Faults by construction of the command, not by failing system calls; non-interactive session (terminal ownership not observable). Helper threads still alive, sys.std* identity, runs exceeding the time limit, stale handlers and zombies depend on thread timing the harness does not control and are reported as ADVISORY only. Two descriptor leaks are known findings (command not found at a later stage; background commands with a callable-alias stage); one defect (background pipeline of child processes never ending) was repaired by a fix: commit.",
     ),
     "C01": dict(
         category="exploration",
-        technique="TLA+ spec PyGrammar over production tables generated from harness/pygrammar.py (401 named productions of the Python 3.12 grammar, slot kinds, well-formed derivations, table sanity as ASSUMEs) checked by TLC; every derivation - each production alone in 14 layouts and 3 modes, every (parent, slot, child) nesting, depth-3 nestings from fixed random streams - rendered to source, parsed by CPython (oracle for membership and tree) and by xonsh's parser on an LALR table regenerated from the working tree; outcomes validated against PyGrammarTrace by TLC, failures explained only by listed productions / nestings (generated module PyGrammarKnown)",
-        text="The model contributes the enumerated, structured universe (about 1.7 x 10^5 distinct programs in the thorough tier, 2.5 x 10^4 in the quick tier) and the judgement `CPython accepts => xonsh accepts, same tree, compiles`; the decision for each program is the differential comparison with CPython's own parser after location-free normalisation that keeps node kinds, every identifier-bearing field, constants by type and value, contexts, operators, arity and order (a strict comparison, unlike the suite's nodes_equal). A failing derivation is accepted only if it contains a production, nesting or layout listed in known_findings_c01.json (written by a triage tool from a complete run on the pinned tree); any other failure is a violation.",
+        technique="TLA+ spec PyGrammar over production tables generated from harness/pygrammar.py (421 named productions of the Python 3.12 grammar, slot kinds, well-formed derivations, table sanity as ASSUMEs) checked by TLC; every derivation - each production alone in 14 layouts and 3 modes, every (parent, slot, child) nesting, depth-3 nestings from fixed random streams, and every statement / embedded program of the syntax-oriented files of CPython's own test suite as installed (about 19 000 texts) - rendered to source, parsed by CPython (oracle for membership and tree) and by xonsh's parser on an LALR table regenerated from the working tree; outcomes validated against PyGrammarTrace by TLC, failures explained only by listed productions / nestings (generated module PyGrammarKnown)",
+        text="The model contributes the enumerated, structured universe (about 1.9 x 10^5 distinct programs in the thorough tier, 4 x 10^4 in the quick tier) and the judgement `CPython accepts => xonsh accepts, same tree, compiles`; the decision for each program is the differential comparison with CPython's own parser after location-free normalisation that keeps node kinds, every identifier-bearing field, constants by type and value, contexts, operators, arity and order (a strict comparison, unlike the suite's nodes_equal). A failing derivation is accepted only if it contains a production, nesting or layout listed in known_findings_c01.json (written by a triage tool from a complete run on the pinned tree); any other failure is a violation.",
         design_ref="3/C01, A.2",
-        note="Trusts CPython 3.12 as oracle and TLC for the per-derivation judgement; bounded nesting depth 3, fixed identifier pools; exec/single input is newline-terminated as Execer does. About 400 smallest failing derivations of the pinned parser are listed findings.",
+        note="Trusts CPython 3.12 as oracle and TLC for the per-derivation judgement; bounded nesting depth 3, fixed identifier pools; exec/single input is newline-terminated as Execer does. About 430 smallest failing derivations and 291 corpus texts the pinned parser gets wrong are listed findings (known_findings_c01.json).",
     ),
     "C06": dict(
         category="model_checking",
@@ -32,7 +32,7 @@ CHECKS = {
         technique="TLA+ spec FmtState (the formatter as a one-pass state machine over token and gap classes: bracket depth, macro modes, subprocess-statement flag, pending blank lines; two passes) checked by TLC for Skeleton, Idempotent, BlankCap over every token stream up to length 3-4; thousands of real sources assembled from statement templates x layouts formatted by the real formatter, output parsed by xonsh's own parser and compared with the input's tree, comments compared, output re-formatted; verdicts validated against FmtStateTrace by TLC; rejected inputs driven through the command-line entry point",
         text="TLC shows on the model why one pass is enough: every decision depends on the token skeleton and on gaps the pass leaves alone, so the skeleton is re-emitted unchanged and a second pass is the identity. The binding then runs the real formatter on >5k (quick) / >40k (thorough) sources - every statement template (Python simple and compound statements, subprocess lines, alias/function/subprocess macros, multi-line strings and f-strings, comments) in every gap layout, alone and nested to depth 3 with indent units tab/2/4/8, blank-line runs, trailing blanks, CRLF, missing final newline - and requires parse(format(s)) == parse(s) with xonsh's own three-phase parser (string constants, subprocess arguments and macro bodies are constants of that tree), equal comment sequences, and format(format(s)) == format(s); tokenizer-rejected inputs must fail with a non-zero exit and leave the file untouched.",
         design_ref="3/C17",
-        note="Trusts TLC and xonsh's own parser as the meaning oracle (names of the Python templates are bound, command words are not); tab characters between subprocess words, a tab right before `#`, and control characters inside a line are not explored (xonsh's own lexer is inconsistent there). Four formatter defects were repaired (fix: commits), two are known findings.",
+        note="Trusts TLC and xonsh's own parser as the meaning oracle (names of the Python templates are bound, command words are not); tab characters between subprocess words, a tab right before `#`, and control characters inside a line are not explored (xonsh's own lexer is inconsistent there). Fourteen formatter defects were repaired (fix: commits), seven are known findings.",
     ),
     "C18": dict(
         category="model_checking",
